@@ -22,7 +22,7 @@ PLAN = {
     "C02": P(5000, 75, 150000, 900),
     "C15": P(400, 100, 20000, 1200, chunk=100, race_runs_quick=16, race_runs_thorough=3000),
     "C18": P(2000, 90, 60000, 900, chunk=200),
-    "C17": P(1500, 90, 40000, 900, chunk=150),
+    "C17": P(1500, 90, 40000, 900, chunk=150, race_runs_quick=16, race_runs_thorough=2000),
     "C05": P(1500, 90, 40000, 900, chunk=150),
     "C16": P(2500, 90, 60000, 900),
     "C19": P(2500, 90, 60000, 900),
@@ -51,7 +51,7 @@ LEVELS = {
             "components": {"real": ["pkg/fuse mutable file system + commit", "pkg/core", "pkg/cafs", "afero OsFs staging directory"], "stub": STUB},
             "assumptions": ["one caller (the statement quantifies over programs, not schedules)"]},
     "C17": {"level": "exploration", "rule": RULE,
-            "text": "bundles built by real uploads (deep nesting, 20-60 siblings, empty and multi-leaf files, hostile names) are mounted read-only, streamed and pre-downloaded; 1..4 caller tasks (the FUSE server dispatches each kernel request on its own goroutine) issue random programs of lookup walks, getattr, opendir/readdir with 48..4096-byte buffers resumed at every returned offset, and ReadFile at any offset/length including at and after EOF, while the scheduler interleaves the leaf reads of the streaming cafs (LRU 1-6 buffers, prefetch 0-2); a configuration adds transient blob-read failures (EIO or correct bytes). Oracle: the directory tree implied by the uploaded files",
+            "text": "bundles built by real uploads (deep nesting, 20-60 siblings, empty and multi-leaf files, hostile names) are mounted read-only, streamed and pre-downloaded; 1..4 caller tasks (the FUSE server dispatches each kernel request on its own goroutine) issue random programs of lookup walks, getattr, opendir/readdir with 48..4096-byte buffers resumed at every returned offset, and ReadFile at any offset/length including at and after EOF, while the scheduler interleaves the leaf reads of the streaming cafs (LRU 1-6 buffers, prefetch 0-2); a configuration adds transient blob-read failures (EIO or correct bytes). Oracle: the directory tree implied by the uploaded files. Mode B (runtime detection, not simulation): 4..8 callers with longer programs on the same mounts, scheduler off, real parallelism, -race build: a race report in the file system's request paths is a violation (requests that never reach a store call have no seam for the scheduler to interleave)",
             "note": "the file-system methods are called directly (reflect on the unexported fsInternal field): no kernel FUSE transport; the streamed mount is given the bundle's leaf size up front (DESIGN §6 C17)",
             "components": {"real": ["pkg/fuse read-only file system + bundle_read", "pkg/core publish", "pkg/cafs reader"], "stub": STUB},
             "assumptions": ["hash verification enabled on the mount"]},
